@@ -13,8 +13,13 @@ func BytesCodec() rpc.Codec { return &rpc.BYTESCodec{} }
 // ServeLink serves the server end of a frame link with a real Server; returns a channel
 // closed when ServeCodec returns.
 func ServeLink(srv *rpc.Server, link *FrameLink, enc string, directIO bool) chan struct{} {
+	return ServeLinkWith(srv, link, enc, directIO, BytesCodec())
+}
+
+// ServeLinkWith is ServeLink with a chosen body codec.
+func ServeLinkWith(srv *rpc.Server, link *FrameLink, enc string, directIO bool, body rpc.Codec) chan struct{} {
 	done := make(chan struct{})
-	codec := rpc.NewServerCodec(BytesCodec(), HeaderEncoder(enc), link.S, directIO, 0)
+	codec := rpc.NewServerCodec(body, HeaderEncoder(enc), link.S, directIO, 0)
 	go func() {
 		srv.ServeCodec(codec)
 		close(done)
